@@ -38,7 +38,7 @@ def run(lines, out, args):
                     t, v = e.split(":")
                     I.setTaggedValue(t, int(v))
                 invs = []
-                for e in lst(f[5]):
+                for e in (lst(f[5]) if f[5] != "E" else []):
                     k, fl = e.split(":")
 
                     def inv(ob, k=int(k), fl=fl == "1"):
@@ -46,7 +46,7 @@ def run(lines, out, args):
                         if fl:
                             raise Invalid(k)
                     invs.append(inv)
-                if invs:
+                if invs or f[5] == "E":    # "E": an explicitly empty invariants list (legal; ancestors' invariants still apply)
                     I.setTaggedValue("invariants", invs)
                 ifs[int(f[1])] = I
             elif f[0] == "set":
